@@ -589,7 +589,22 @@ pub fn d13(residue: usize, chain: usize) -> bool {
 // re-activated / re-created / flushed, bursts of retirements under the outer guard) while another
 // thread unlinks what the outer guard protects and drives collection rounds in lock step.
 pub const D14_OPS: usize = 10;
-pub fn d14(residue: usize, inner_op: usize, holder: usize) -> bool {
+/// An object whose destruction produces more garbage (it owns an `Rc` in a plain field).
+pub struct Holder {
+    #[allow(dead_code)]
+    p: Rc<Tiny>,
+    next: AtomicRc<Holder>,
+}
+unsafe impl circ::RcObject for Holder {
+    fn pop_edges(&mut self, out: &mut Vec<Rc<Self>>) {
+        out.push(self.next.take());
+    }
+}
+/// `prelude` (on the reader's thread, before it enters its critical section): 0 = nothing; 1 = 12000 objects whose
+/// destruction produces more garbage are retired and become due together, so that one unpin needs a dozen
+/// back-to-back collection rounds; 2 = three chains of 400 nodes retired in consecutive epochs (a backlog that
+/// becomes due while the reader is inside its critical section).
+pub fn d14(residue: usize, inner_op: usize, holder: usize, prelude: usize) -> bool {
     reset(residue, 0);
     let (x, xid) = new_node(3);
     let sh = Arc::new(Sh { roots: vec![AtomicRc::null(), AtomicRc::null()], wroots: vec![AtomicWeak::null()] });
@@ -598,8 +613,9 @@ pub fn d14(residue: usize, inner_op: usize, holder: usize) -> bool {
         let w = x.downgrade();
         obj(xid).weak.fetch_add(1, SeqCst);
         sh.wroots[0].store(w, SeqCst, &g);
-        if holder == 1 {
-            // only the block survives (held by the weak root)
+        if holder == 1 || holder == 3 {
+            // 1: only the block survives (held by the weak root); 3: the object's destruction is still pending
+            // (due one epoch after the reader pins) when the reader loads its WeakSnapshot
             drop(x);
         } else {
             l_rc(xid, 1);
@@ -612,9 +628,42 @@ pub fn d14(residue: usize, inner_op: usize, holder: usize) -> bool {
             mon::harness_error("d14 setup: cannot drain");
         }
     }
+    if holder == 3 {
+        churn(2);
+    }
     let rounds = 10usize;
     let s0 = sh.clone();
     let b0: Box<dyn FnOnce() + Send> = Box::new(move || {
+        let c01 = mon::check_prop() == "C01";
+        match prelude {
+            1 => {
+                {
+                    let g = circ::cs();
+                    for _ in 0..12000 {
+                        drop(Rc::new(Holder { p: Rc::new(Tiny { next: AtomicRc::null() }), next: AtomicRc::null() }));
+                    }
+                    drop(g);
+                }
+                churn(5);
+            }
+            2 => {
+                for _ in 0..3 {
+                    let head = {
+                        let g = circ::cs();
+                        let mut head: Rc<Tiny> = Rc::null();
+                        for _ in 0..400 {
+                            let n = Rc::new(Tiny { next: AtomicRc::null() });
+                            n.as_ref().unwrap().next.store(head, SeqCst, &g);
+                            head = n;
+                        }
+                        head
+                    };
+                    drop(head);
+                    churn(1);
+                }
+            }
+            _ => {}
+        }
         let g = circ::cs();
         let a0 = verif::local_state(&g).map_or(0, |s| s.announced);
         let serial = mon::guard_register(verif::local_id(&g));
@@ -626,7 +675,7 @@ pub fn d14(residue: usize, inner_op: usize, holder: usize) -> bool {
                 l_snap(xid, 0, 1);
                 snap = Some(s);
             }
-            1 => {
+            1 | 3 => {
                 let ws = s0.wroots[0].load(SeqCst, &g);
                 obj(xid).wsnap.fetch_add(1, SeqCst);
                 wsnap = Some(ws);
@@ -638,7 +687,7 @@ pub fn d14(residue: usize, inner_op: usize, holder: usize) -> bool {
                 snap = Some(s);
             }
         }
-        mon::oplog(0, format!("g = cs() at epoch {}; holder kind {} taken under g; then {} rounds of inner op {}", a0, holder, rounds, inner_op));
+        mon::oplog(0, format!("(prelude {}) g = cs() at epoch {}; holder kind {} taken under g; then {} rounds of inner op {}", prelude, a0, holder, rounds, inner_op));
         let mut g1 = if matches!(inner_op, 1 | 2 | 3 | 7) { Some(circ::cs()) } else { None };
         set(1, 1);
         wait(2, 1);
@@ -707,13 +756,29 @@ pub fn d14(residue: usize, inner_op: usize, holder: usize) -> bool {
                 );
             }
             if let Some(n) = snap.as_ref().and_then(|s| s.as_ref()) {
-                n.check_live(Some(xid), "C02", if holder == 0 { "load" } else { "WeakSnapshot::upgrade" });
+                if !c01 {
+                    n.check_live(Some(xid), "C02", if holder == 0 { "load" } else { "WeakSnapshot::upgrade" });
+                }
             }
             set(3, round + 1);
             wait(4, round + 1);
         }
         if let Some(n) = snap.as_ref().and_then(|s| s.as_ref()) {
-            n.check_live(Some(xid), "C02", if holder == 0 { "load" } else { "WeakSnapshot::upgrade" });
+            if !c01 {
+                n.check_live(Some(xid), "C02", if holder == 0 { "load" } else { "WeakSnapshot::upgrade" });
+            }
+        }
+        if let Some(s) = snap.as_ref() {
+            // still inside the critical section: the snapshot is turned into an owner, which must refer to a live object
+            let r = s.counted();
+            l_rc(xid, 1);
+            r.as_ref().unwrap().check_live(Some(xid), "C01", "Snapshot::counted");
+            let c = r.verif_counts().unwrap();
+            if c.strong == 0 || c.destructed {
+                mon::violation("C01", "C01|count-word-bad-under-rc|via=Snapshot::counted", format!("scenario d14: count word {:?} behind an Rc returned by Snapshot::counted", c));
+            }
+            l_rc(xid, -1);
+            drop(r);
         }
         if let Some(ws) = wsnap.as_ref() {
             // the block must still be allocated: reading the counters is legal
@@ -736,7 +801,7 @@ pub fn d14(residue: usize, inner_op: usize, holder: usize) -> bool {
     let s1 = sh.clone();
     let b1: Box<dyn FnOnce() + Send> = Box::new(move || {
         wait(1, 1);
-        if holder == 1 {
+        if holder == 1 || holder == 3 {
             let w = s1.wroots[0].swap(Weak::null(), SeqCst);
             obj(xid).weak.fetch_add(-1, SeqCst);
             drop(w);
@@ -754,7 +819,7 @@ pub fn d14(residue: usize, inner_op: usize, holder: usize) -> bool {
             set(4, round + 1);
         }
     });
-    let _ = run("d14", J::obj().set("scenario", "d14").set("residue", residue).set("inner_op", inner_op).set("holder", holder), vec![], vec![b0, b1]);
+    let _ = run("d14", J::obj().set("scenario", "d14").set("residue", residue).set("inner_op", inner_op).set("holder", holder).set("prelude", prelude), vec![], vec![b0, b1]);
     {
         let g = circ::cs();
         let w = sh.wroots[0].swap(Weak::null(), SeqCst);
@@ -766,6 +831,195 @@ pub fn d14(residue: usize, inner_op: usize, holder: usize) -> bool {
     }
     finish(&sh);
     get(9) == 1
+}
+
+// ---------------------------------------------------------------------------------------------
+// D16: guards taken inside a thread-local destructor that runs after the thread's participant handle was
+// destroyed (the participant is kept alive by the guard alone) must protect like any other guard, whatever
+// guard-level operation was done on them first. Real threads, no scheduler (the destructor runs outside any worker).
+pub const D16_VARIANTS: usize = 9;
+struct D16Obj {
+    sh: Arc<Sh>,
+    xid: u32,
+    variant: usize,
+}
+thread_local! {
+    static TLS_D16: std::cell::RefCell<Option<D16Obj>> = const { std::cell::RefCell::new(None) };
+}
+impl Drop for D16Obj {
+    fn drop(&mut self) {
+        let c01 = mon::check_prop() == "C01";
+        let mut g = circ::cs();
+        let mut extra = None;
+        match self.variant {
+            1 => g.reactivate(),
+            2 => g.reactivate_after(|| {}),
+            3 => {
+                let g1 = circ::cs();
+                drop(std::mem::replace(&mut g, g1));
+            }
+            4 => g.flush(),
+            5 => g.reactivate_after(|| churn(1)),
+            6 => extra = Some(circ::cs()),
+            7 => {
+                let t = circ::cs();
+                drop(t);
+            }
+            8 => {
+                let mut t = circ::cs();
+                t.reactivate();
+                t.reactivate_after(|| {});
+                drop(t);
+                g.reactivate();
+            }
+            _ => {}
+        }
+        let st = verif::local_state(&g);
+        let a0 = st.as_ref().map_or(0, |s| s.announced);
+        if st.as_ref().map_or(false, |s| s.handle_count == 0) {
+            set(8, 1); // materialised: the participant has no handle left
+        }
+        let serial = mon::guard_register(verif::local_id(&g));
+        let s = self.sh.roots[0].load(SeqCst, &g);
+        if !s.is_null() {
+            l_snap(self.xid, 0, 1);
+        }
+        set(1, 1);
+        wait(2, 1);
+        let st = verif::local_state(&g);
+        // after the handle is gone every cs() registers a participant of its own: one guard per participant
+        let live = 1;
+        if let Some(st2) = extra.as_ref().and_then(|e| verif::local_state(e)) {
+            if !st2.pinned || st2.guard_count != 1 {
+                mon::observer_violation("C16", "C16|pinned-state-mismatch|tls-destructor", format!("variant {}: second guard's participant: pinned={} guard_count={}", self.variant, st2.pinned, st2.guard_count));
+            }
+        }
+        mon::eval("guard-model");
+        if let Some(st) = st {
+            if !st.pinned || st.guard_count != live {
+                mon::observer_violation("C16", "C16|pinned-state-mismatch|tls-destructor", format!("variant {}: {} live guard(s) but pinned={} guard_count={}", self.variant, live, st.pinned, st.guard_count));
+            }
+            if st.announced != a0 {
+                mon::observer_violation("C16", "C16|announced-epoch-moved-under-live-guard", format!("scenario d16 variant {}: announced epoch moved from {} to {} under a live guard", self.variant, a0, st.announced));
+            }
+            let ge = verif::global_epoch();
+            if ge < a0 || ge - a0 > 1 {
+                mon::observer_violation("C14", "C14|epoch-advanced-twice-within-critical-section", format!("scenario d16 variant {}: the guard has been live since epoch {} but the global epoch is {}", self.variant, a0, ge));
+            }
+        }
+        if let Some(n) = s.as_ref() {
+            if !c01 {
+                n.check_live(Some(self.xid), "C02", "load");
+            }
+            let r = s.counted();
+            l_rc(self.xid, 1);
+            r.as_ref().unwrap().check_live(Some(self.xid), "C01", "Snapshot::counted");
+            l_rc(self.xid, -1);
+            drop(r);
+        }
+        if !s.is_null() {
+            l_snap(self.xid, 0, -1);
+        }
+        mon::guard_deregister(serial);
+        drop(extra);
+        drop(g);
+        set(9, 1);
+    }
+}
+
+pub fn d16(residue: usize, variant: usize) -> bool {
+    reset(residue, 0);
+    let (x, xid) = new_node(3);
+    let sh = Arc::new(Sh { roots: vec![AtomicRc::null()], wroots: vec![] });
+    {
+        let g = circ::cs();
+        l_rc(xid, 1);
+        sh.roots[0].store(x, SeqCst, &g);
+        l_rc(xid, -1);
+    }
+    mon::set_ctx("d16", J::obj().set("scenario", "d16").set("residue", residue).set("variant", variant), 2);
+    let sh2 = sh.clone();
+    let t = std::thread::spawn(move || {
+        // the object is created before this thread's first use of the library: destroyed after its handle
+        TLS_D16.with(|t| *t.borrow_mut() = Some(D16Obj { sh: sh2, xid, variant }));
+        let g = circ::cs();
+        drop(g);
+    });
+    wait(1, 1);
+    if get(1) == 1 {
+        let old = sh.roots[0].swap(Rc::null(), SeqCst);
+        drop(old);
+        churn(10);
+    }
+    set(2, 1);
+    let _ = t.join();
+    finish(&sh);
+    get(9) == 1 && get(8) == 1
+}
+
+// ---------------------------------------------------------------------------------------------
+// D15: a guard created inside a destructor that runs during a collection and kept beyond it (here: in a
+// thread-local) counts like any other guard: the thread stays pinned until it is dropped.
+pub struct Keeper {
+    next: AtomicRc<Keeper>,
+}
+unsafe impl circ::RcObject for Keeper {
+    fn pop_edges(&mut self, out: &mut Vec<Rc<Self>>) {
+        out.push(self.next.take());
+    }
+}
+thread_local! {
+    static KEPT: std::cell::RefCell<Option<circ::Guard>> = const { std::cell::RefCell::new(None) };
+}
+impl Drop for Keeper {
+    fn drop(&mut self) {
+        if mon::IN_COLLECT.with(|c| c.get()) > 0 {
+            set(1, 1);
+        }
+        KEPT.with(|k| *k.borrow_mut() = Some(circ::cs()));
+    }
+}
+
+pub fn d15(residue: usize, extra_guards: usize) -> bool {
+    reset(residue, 0);
+    let sh = Arc::new(Sh { roots: vec![], wroots: vec![] });
+    let b0: Box<dyn FnOnce() + Send> = Box::new(move || {
+        drop(Rc::new(Keeper { next: AtomicRc::null() }));
+        for _ in 0..12 {
+            // the collection that runs Keeper::drop happens inside the unpin of one of these rounds
+            let outer: Vec<circ::Guard> = (0..extra_guards).map(|_| circ::cs()).collect();
+            churn(1);
+            drop(outer);
+            if KEPT.with(|k| k.borrow().is_some()) {
+                break;
+            }
+        }
+        let kept = KEPT.with(|k| k.borrow_mut().take());
+        let Some(kept) = kept else { return };
+        mon::eval("guard-model");
+        let st = verif::local_state(&kept).unwrap();
+        mon::oplog(0, format!("a guard created in a destructor during collection is still held: pinned={} guard_count={}", st.pinned, st.guard_count));
+        if !st.pinned || st.guard_count != 1 {
+            mon::observer_violation(
+                "C16",
+                "C16|pinned-state-mismatch|context=guard-kept-from-destructor-during-collection",
+                format!("one live guard (created inside a destructor that ran during collection, kept in a thread-local) but pinned={} guard_count={}", st.pinned, st.guard_count),
+            );
+            std::mem::forget(kept);
+            return;
+        }
+        drop(kept);
+        let g = circ::cs();
+        let st = verif::local_state(&g).unwrap();
+        if !st.pinned || st.guard_count != 1 {
+            mon::observer_violation("C16", "C16|pinned-state-mismatch|context=guard-kept-from-destructor-during-collection", format!("after dropping the kept guard and pinning again: pinned={} guard_count={}", st.pinned, st.guard_count));
+        }
+        drop(g);
+        set(9, 1);
+    });
+    let _ = run("d15", J::obj().set("scenario", "d15").set("residue", residue).set("guards_around_the_round", extra_guards), vec![], vec![b0]);
+    finish(&sh);
+    get(9) == 1 && get(1) == 1
 }
 
 pub struct ScenOut {
@@ -855,14 +1109,35 @@ pub fn run_all(which: &str, shard: u64, nshards: u64, thorough: bool) -> ScenOut
         // d14s: strong holders (Snapshot), d14w: weak holder (WeakSnapshot), d14: all
         let holders: Vec<usize> = match which {
             "d14s" => vec![0, 2],
-            "d14w" => vec![1],
-            _ => vec![0, 1, 2],
+            "d14w" => vec![1, 3],
+            "d14u" => vec![2],
+            _ => vec![0, 1, 2, 3],
         };
         for &r in &rs {
             for op in 0..D14_OPS {
                 for &holder in &holders {
-                    one("d14", vec![r, op, holder], &|| d14(r, op, holder), &mut out);
+                    for prelude in 0..3usize {
+                        if prelude == 1 && !thorough && (r + op + holder) % 3 != 0 {
+                            continue; // the expensive prelude on a third of the grid in the quick tier
+                        }
+                        one("d14", vec![r, op, holder, prelude], &|| d14(r, op, holder, prelude), &mut out);
+                    }
                 }
+            }
+        }
+    }
+    if which == "d16" {
+        let rs: Vec<usize> = if thorough { (0..16).collect() } else { vec![0, 7, 15] };
+        for &r in &rs {
+            for v in 0..D16_VARIANTS {
+                one("d16", vec![r, v], &|| d16(r, v), &mut out);
+            }
+        }
+    }
+    if which == "d15" {
+        for &r in &[0usize, 5, 11] {
+            for eg in 0..2usize {
+                one("d15", vec![r, eg], &|| d15(r, eg), &mut out);
             }
         }
     }
